@@ -2,4 +2,5 @@ pub mod c08;
 pub mod c11;
 pub mod c12;
 pub mod c14;
+pub mod c16;
 pub mod c19;
